@@ -142,6 +142,7 @@ PqAppend(a, b, f) ==
 PqFromVec(pairs, f)  == Then(StoreFromVec(pairs, f),  LAMBDA x : PqHeapBuild(x.st, x.fuel))
 PqFromIter(pairs, f) == Then(StoreFromIter(pairs, f), LAMBDA x : PqHeapBuild(x.st, x.fuel))
 PqFromStore(s, f)    == PqHeapBuild(s, f)
+PqDeserialize(pairs, f) == Then(StoreDeserialize(pairs, f), LAMBDA x : PqHeapBuild(x.st, x.fuel))
 
 \* Extend: `rebuild` is the strategy chosen from the size hint (see BetterToRebuild)
 RECURSIVE PqPushAll(_,_,_)
